@@ -50,6 +50,7 @@ CONSTANTS
   KeyOrder <- KO
   ProgSpace <- %s
   ComputeMode = "%s"
+  InitMode = "%s"
 VIEW View
 INVARIANT NoPanic
 PROPERTY Refines
@@ -63,6 +64,7 @@ CONSTANTS
   KeyOrder <- KO
   ProgSpace <- TheProg
   ComputeMode = "recheck"
+  InitMode = "recheck"
 VIEW View
 ACTION_CONSTRAINT Emit
 CHECK_DEADLOCK FALSE
@@ -110,6 +112,11 @@ def run(c):
     rng = random.Random(c.seed)
     if c.replay:
         rp = json.load(open(c.replay))
+        if rp["case"].get("mode") == "race":
+            rr = c.race_run(rp["case"]["args"])
+            if rr is not None:
+                c.report("C19:" + rr["kind"], dict(case=rp["case"], report=rr["report"]), "race reproduced: %s" % rr["frames"][:4])
+            return
         _, out = c.harness("c19", [rp["case"]], name="replay")
         rej = c.validate(out, "TraceCowAbs", max_rejects=1)
         if rej:
@@ -117,12 +124,13 @@ def run(c):
         return
 
     # ---------------- (A) ----------------
-    c.tlc_expect_clean("MCCow", "MCCow3x1", files={"MCCow3x1.cfg": MC_CFG % (q(["t1", "t2", "t3"]), "Prog3x1", "recheck")})
+    c.tlc_expect_clean("MCCow", "MCCow3x1", files={"MCCow3x1.cfg": MC_CFG % (q(["t1", "t2", "t3"]), "Prog3x1", "recheck", "recheck")})
     if c.thorough:
-        c.tlc_expect_clean("MCCow", "MCCow2x2", files={"MCCow2x2.cfg": MC_CFG % (q(["t1", "t2"]), "Prog2x2", "recheck")}, timeout=1800)
-        c.tlc_expect_clean("MCCow", "MCCow3x2", files={"MCCow3x2.cfg": MC_CFG % (q(["t1", "t2", "t3"]), "Prog3x2", "recheck")}, timeout=3000)
-    neg = c.tlc_expect_violation("MCCow", "MCCowNeg", files={"MCCowNeg.cfg": MC_CFG % (q(["t1", "t2", "t3"]), "ProgRace", "unlocked")})
-    c.extra["negative_config_rejected"] = neg.violated
+        c.tlc_expect_clean("MCCow", "MCCow2x2", files={"MCCow2x2.cfg": MC_CFG % (q(["t1", "t2"]), "Prog2x2", "recheck", "recheck")}, timeout=1800)
+        c.tlc_expect_clean("MCCow", "MCCow3x2", files={"MCCow3x2.cfg": MC_CFG % (q(["t1", "t2", "t3"]), "Prog3x2", "recheck", "recheck")}, timeout=3000)
+    neg = c.tlc_expect_violation("MCCow", "MCCowNeg", files={"MCCowNeg.cfg": MC_CFG % (q(["t1", "t2", "t3"]), "ProgRace", "unlocked", "recheck")})
+    neg2 = c.tlc_expect_violation("MCCow", "MCCowNegInit", files={"MCCowNegInit.cfg": MC_CFG % (q(["t1", "t2", "t3"]), "Prog3x1", "recheck", "norecheck")})
+    c.extra["negative_config_rejected"] = neg.violated + neg2.violated
 
     # ---------------- (B) ----------------
     cases = []
@@ -208,6 +216,20 @@ def run(c):
                       "before the invocation and Ret after the return, which can only widen the real interval"]
     if not c.cov["samples"]:
         c.cov["samples"].append(cases[0])
+
+    # auxiliary oracle for "one consistent snapshot": unscheduled goroutines under the Go race detector -
+    # a writer that mutates the published snapshot in place is invisible to any sequentially consistent
+    # schedule but is a data race (or a runtime "concurrent map" fatal error) in real executions
+    rr = c.race_run(["c19race", "4000" if c.thorough else "1500"])
+    c.extra["race_detector_run"] = "clean" if rr is None else rr["kind"]
+    if rr is not None:
+        again = c.race_run(["c19race", "6000"])
+        if again is None:
+            raise vf.Infra("race report did not reproduce")
+        fr = [f for f in again["frames"] if "/mutable" in f][:2]
+        c.report("C19:" + again["kind"] + ":" + ",".join(sorted(set(fr))),
+                 dict(case=dict(mode="race", args=["c19race", "6000"]), report=again["report"]),
+                 "unscheduled goroutines on one CopyOnWriteMap: %s in %s" % (again["kind"], again["frames"][:4]))
 
     rejected = c.validate(out, "TraceCowAbs", max_rejects=15, timeout=3000)
     classes = set()
